@@ -26,7 +26,14 @@ def AGG(n):
     return '%08d-aaaa-aaaa-aaaa-aaaaaaaaaaaa' % n
 
 
+# identifier spaces are independent in the API: a family may make a consumer
+# carry the uuid of a provider (set for the duration of one path)
+CONS_ALIAS = {}
+
+
 def CONS(n):
+    if n in CONS_ALIAS:
+        return CONS_ALIAS[n]
     return '%08d-cccc-cccc-cccc-cccccccccccc' % n
 
 
